@@ -31,7 +31,7 @@ def floors(tier):
     q = tier == "quick"
     return {"twins": 60000 if q else 1500000, "text_changed_docs": 15000, "nontext_with_triggers": 15000, "mode.replacements": 10000, "mode.smartquotes": 10000,
             "mode.both": 10000, "sq.regex_checks": 20000, "sq.quotes_replaced": 20000, "autolink_text_checked": 1500, "escaped_full.twins": 10000,
-            "escaped_mixed.twins": 10000, "escaped_mixed.literal_quotes": 10000, "quotes_list_values": 10000}
+            "escaped_mixed.twins": 10000, "escaped_mixed.literal_quotes": 10000, "quotes_list_values": 10000, "entity_triggers.twins": 20000}
 
 
 def flat(ts, out):
@@ -85,9 +85,13 @@ def examine(ctx, case, count=False):
     off, on = make_pair(case)
     src = case["src"]
     try:
-        ta, tb = off.parse(src), on.parse(src)
+        ta = off.parse(src)
     except Exception:
         return None
+    try:
+        tb = on.parse(src)
+    except Exception as e:
+        return [("typographer-on-raises", f"with the typographer on the parse raises {type(e).__name__}: {e} (off: returns normally)")]
     a, b = flat(ta, []), flat(tb, [])
     errs = []
     if len(a) != len(b):
@@ -168,10 +172,13 @@ def check_case(ctx, case, minimize=True):
 
 
 def replay(ctx, case):
-    check_case(ctx, case, minimize=False)
+    if "want" in case:
+        entity_trigger_case(ctx, case)
+    else:
+        check_case(ctx, case, minimize=False)
 
 
-DENSE = ["\"", "'", "\"a\"", "'b'", "it's", "'tis", "\"'x'\"", "--", "---", "...", "....", "(c)", "(C)", "(tm)", "(r)", "(p)", "+-", ",,", "???", "!!!!", "?..", "!...", " -- ",
+DENSE = ["(Tm)", "(tM)", "(C)", "(R)", "(TM)", "(P)", "(p)", "\"", "'", "\"a\"", "'b'", "it's", "'tis", "\"'x'\"", "--", "---", "...", "....", "(c)", "(C)", "(tm)", "(r)", "(p)", "+-", ",,", "???", "!!!!", "?..", "!...", " -- ",
          "a--b", "1-2", "`\"c\" -- 'd'`", "<http://a.b/'x'--y>", "<http://a.b/(c)(tm)...+->", "<x:(r)>", "<m@n.o>", "<b title=\"q\">", "</b>", "[\"l\"](u \"ti'tle\")", "![\"i\" ...](s '(c)')", "*\"e\"*", "**'s'**",
          "_a_\"", "\"_b_", "\n", "  \n", " ", "x", "y'", "'z", "http://x.y/\"q\"", "&quot;", "\\\"", "\\'", "&#39;", "&hellip;", "\\(c\\)", "(c\\)", "\\-\\-", "-\\-", "1'2\"",
          "'''", "\"\"\"", "«", "’", "”", "\xa0", "́", "'́", "[r]", "\"[r]\"", "| \"c\" |"]
@@ -207,6 +214,12 @@ def run(ctx):
         ctx.count("escaped_full.twins")
         check_case(ctx, {"conf": rng.choice(presets), "mode": rng.choice(["replacements", "smartquotes", "both"]), "quotes": rng.choice(QUOTES), "src": src, "expect_identical": True},
                    minimize=False)
+    # escape immunity (3): trigger sequences with one character written as a character reference, between literal triggers
+    for k in range(ctx.scale(30000, 600000)):
+        src, want = gen_entity_trigger(rng)
+        if "..." in want.replace("…", "") and False:
+            continue
+        entity_trigger_case(ctx, {"conf": rng.choice(presets[:3]), "mode": rng.choice(["replacements", "both"]), "quotes": "“”‘’", "src": src, "want": want})
     # escape immunity (2): paragraphs where the harness knows which characters came from escapes/references
     for k in range(ctx.scale(20000, 500000)):
         q = rng.choice(QUOTES)
@@ -232,6 +245,43 @@ def run(ctx):
             continue
         ctx.count("escaped_mixed.twins")
         check_case(ctx, {"conf": {"preset": "js-default"}, "mode": "smartquotes", "quotes": q, "src": s, "literal": "".join(rx)}, minimize=False)
+
+
+TRIG = {"(c)": "©", "(C)": "©", "(r)": "®", "(tm)": "™", "(TM)": "™", "+-": "±", "...": "…"}
+
+
+def entity_trigger_case(ctx, case):
+    """characters written as character references are never rewritten: literal triggers around an entity-spelled one"""
+    ctx.count("evaluations")
+    ctx.current = case
+    off, on = make_pair(case)
+    try:
+        h_on = on.render(case["src"])
+    except Exception as e:
+        ctx.violation("typographer-on-raises", f"{type(e).__name__}: {e} | src={case['src']!r}", case)
+        return
+    ctx.count("entity_triggers.twins")
+    ctx.nontrivial("enttrig", case["src"], case["mode"])
+    want = "<p>" + case["want"].replace("&", "&amp;").replace("<", "&lt;").replace(">", "&gt;").replace('"', "&quot;") + "</p>\n"
+    if h_on != want:
+        ctx.violation("entity-written-text-rewritten", f"got {h_on!r}, want {want!r} | src={case['src']!r} mode={case['mode']}", case)
+
+
+def gen_entity_trigger(rng):
+    parts_src, parts_want = [], []
+    for _ in range(rng.randint(2, 5)):
+        t = rng.choice(list(TRIG))
+        if rng.random() < 0.5 or t == "...":   # ("..." minus one dot still holds the trigger "..")
+            parts_src.append(t)
+            parts_want.append(TRIG[t])
+        else:
+            i = rng.randrange(len(t))
+            ch = t[i]
+            ent = rng.choice(["&#%d;" % ord(ch), "&#x%x;" % ord(ch), "&#X%X;" % ord(ch)])
+            parts_src.append(t[:i] + ent + t[i + 1:])
+            parts_want.append(t)
+    sep = rng.choice([" x ", " ", " y, "])
+    return "w " + sep.join(parts_src) + " z", "w " + sep.join(parts_want) + " z"
 
 
 @selftest
